@@ -14,7 +14,7 @@ RULE = (
     "of the history (plus one early peer), the wire of every peer folded into per-topic counts with the publisher's "
     "semantics; the same with one peer whose connection fails (write error) in first position; the SPLIT join "
     "(a new peer's pipe stalls exactly after the handshake so that `subscribe` runs between the socket reading its "
-    "set and registering the peer); seeded longer histories with 3 topics and several joiners. Non-trivial: at least "
+    "set and registering the peer); BACK-PRESSURE: every history of length <= 3 x every call of it x each of two peers accepting only 0..2 bytes during that call (the call is Pending, the peer becomes writable, the call completes: every peer, the slow one included, and a late joiner have been told); seeded longer histories with 3 topics and several joiners. Non-trivial: at least "
     "two peers and one set change. Spec oracle (python): at the end every live peer has been told exactly the socket's "
     "current set (count > 0 iff in the set) and all peers agree."
 )
@@ -53,6 +53,34 @@ def history_case(hist, joins, n, tag, failing=False):
         sc.add(f"wire {p}")
     c = sc.case(f"{tag}#{n}", [tag])
     c.expect = ("agree", hist, peers)
+    return c
+
+
+def stalled_case(hist, at, victim, credit, n):
+    """two early peers; during the `at`-th call of the history peer `victim`'s connection accepts only `credit` bytes
+    (ordinary back-pressure, not a failure): the call waits, the connection becomes writable again, the call completes —
+    and EVERY peer, the slow one included, has been told; a late joiner agrees"""
+    sc = wg.Script()
+    sc.sock(1, "SUB")
+    sc.attach(1, 1, "PUB", b"p1")
+    sc.attach(1, 2, "PUB", b"p2")
+    sc.add("wire 1", "wire 2")
+    cur = []
+    for i, (k, t) in enumerate(hist):
+        changes = (k == "sub" and t not in cur) or (k == "unsub" and t in cur)
+        if k == "sub" and t not in cur:
+            cur.append(t)
+        if k == "unsub" and t in cur:
+            cur.remove(t)
+        if i == at and changes:
+            f = sc.fut()
+            sc.add(f"credit {victim} {credit}", f"{k} {f} 1 {wg.hx(t)}", f"poll {f}", f"credit {victim} inf", f"poll {f}", f"drop {f}")
+        else:
+            add_op(sc, (k, t))
+    sc.attach(1, 3, "PUB", b"late")
+    sc.add("wire 1", "wire 2", "wire 3")
+    c = sc.case(f"stalled-peer#{n}", ["stalled-peer"])
+    c.expect = ("agree", hist, [1, 2, 3])
     return c
 
 
@@ -104,6 +132,14 @@ def cases(tier, rng):
         c.expect = ("agree", [("sub", b"a"), ("sub", b"b")], [1])
         out.append(c)
         n += 1
+    # ordinary back-pressure on one peer while a subscription change is announced
+    for l in range(1, 4):
+        for h in itertools.product(ALPHA, repeat=l):
+            for at in range(l):
+                for victim in (1, 2):
+                    for credit in ((0, 2) if tier == "quick" else (0, 1, 2)):
+                        out.append(stalled_case(list(h), at, victim, credit, n))
+                        n += 1
     top3 = TOP + [b"ab", b""]
     for _ in range(200 if tier == "quick" else 3000):
         h = [(rng.choice(["sub", "sub", "unsub"]), rng.choice(top3)) for _ in range(rng.randint(4, 12))]
